@@ -30,6 +30,108 @@ class TooDeep(BaseException):
     pass
 
 
+# ---------------------------------------------------------------- every implementation call under the per-call limit
+# "Resolution terminates" is part of the statement: a call that does not return is an OUTCOME the oracle judges, never a
+# state of the check.  Every route into the implementation (expand along all call routes, markup.parse for the final
+# trees, resolve_snippets for the resolver oracle, also the calls the GENERATORS make to find out where a decoration can be
+# written) runs under common.time_limit (CPU time) and with a bound on the address space of the process, so that a
+# resolution that keeps growing its node list is stopped by MemoryError (judged like a hang) before the machine is.
+# After HANG_BUDGET calls that hit a limit no further implementation calls are made for generated cases (outcome
+# ('skipped',): no judgement); the inputs that hit the limit are reported with their replay.
+HANG_BUDGET = 3
+RECURSION_BUDGET = 40      # the same for calls that end in RecursionError / beyond the nesting bound (each costs up to 0.5 s)
+TREE_LIMIT_S = 10.0
+ADDRESS_SPACE_HEADROOM = 1536 * 1024 * 1024      # bytes a single implementation call may add to the process
+_HANGS = {'n': 0, 'rec': 0, 'pending': []}
+NO_RESULT = ('hang', 'timeout', 'memory', 'too-deep', 'recursion', 'skipped')
+
+
+def budget_left():
+    return _HANGS['n'] < HANG_BUDGET and _HANGS['rec'] < RECURSION_BUDGET
+
+
+def note_hang(abbr, cfg, where):
+    _HANGS['n'] += 1
+    _HANGS['pending'].append((abbr, copy.deepcopy(cfg), where))
+
+
+class hard_time_limit:
+    """common.time_limit (CPU time of this process, ITIMER_PROF) that fires a BaseException: neither the library nor a
+    harness helper that catches Exception around the implementation call (attr_util.impl_tree does) can swallow it."""
+
+    def __new__(cls, seconds):
+        from common import time_limit
+
+        class _Limit(time_limit):
+            def _fire(self, signum, frame):
+                raise Timeout()
+        return _Limit(seconds)
+
+
+_AS_BASE = []
+
+
+class address_space_limit:
+    """RLIMIT_AS lowered to (size of the process at the first limited call + headroom) for the duration of one
+    implementation call."""
+
+    def __enter__(self):
+        import resource
+        self.res = resource
+        try:
+            self.old = resource.getrlimit(resource.RLIMIT_AS)
+            if not _AS_BASE:
+                with open('/proc/self/statm') as f:
+                    _AS_BASE.append(int(f.read().split()[0]) * resource.getpagesize())
+            new = _AS_BASE[0] + ADDRESS_SPACE_HEADROOM
+            if self.old[0] != resource.RLIM_INFINITY:
+                new = min(new, self.old[0])
+            resource.setrlimit(resource.RLIMIT_AS, (new, self.old[1]))
+        except Exception:  # noqa: no /proc, no permission: the CPU-time limit alone
+            self.old = None
+        return self
+
+    def __exit__(self, *a):
+        if self.old is not None:
+            try:
+                self.res.setrlimit(self.res.RLIMIT_AS, self.old)
+            except Exception:  # noqa
+                pass
+        return False
+
+
+def guarded(fn, abbr, cfg, where):
+    """fn() (one implementation call for abbr under cfg) under both limits: its result, ('hang', s), ('memory',) or, when
+    the budget of hanging calls is used up, ('skipped',)."""
+    import gc
+    if not budget_left():
+        return ('skipped',)
+    try:
+        with address_space_limit():
+            with hard_time_limit(TREE_LIMIT_S):
+                r = fn()
+    except Timeout:
+        r = ('hang', TREE_LIMIT_S)
+    except MemoryError:
+        r = ('memory',)
+    if r[0] == 'internal' and r[1:] == ('MemoryError',):
+        r = ('memory',)
+    if r[0] in ('hang', 'memory'):
+        gc.collect()          # the abandoned node lists (parent/child cycles) go before the next call
+    if r[0] in ('hang', 'memory'):
+        note_hang(abbr, cfg, where)
+    elif r[0] == 'recursion':
+        _HANGS['rec'] += 1
+        if len(_HANGS['pending']) < 5:
+            _HANGS['pending'].append((abbr, copy.deepcopy(cfg), where))
+    return r
+
+
+def tree_of(abbr, cfg):
+    """au.impl_tree (markup.parse: the final tree) under the limits."""
+    return guarded(lambda: au.impl_tree(abbr, cfg), abbr, cfg, 'markup.parse')
+
+
 # ---------------------------------------------------------------- observer: nesting depth of resolve()
 def expand_with_depth(abbr, cfg, call=None):
     """(result, deepest nesting of snippets.resolve() seen while a definition was parsed).
@@ -50,6 +152,8 @@ def expand_with_depth(abbr, cfg, call=None):
         if d > len(set(config.snippets.values())):
             raise TooDeep()          # deeper than the number of (distinct) snippets: the statement's bound is broken
         return orig(snippet, config)
+    if not budget_left():
+        return ('skipped',), 0
     ms.parse = wrapped
 
     def on_alarm(signum, frame):
@@ -57,15 +161,26 @@ def expand_with_depth(abbr, cfg, call=None):
     old = signal.signal(signal.SIGPROF, on_alarm)
     signal.setitimer(signal.ITIMER_PROF, TIME_LIMIT)
     try:
-        r = impl_expand(abbr, cfg) if call is None else route_call(call, abbr)
+        with address_space_limit():
+            r = impl_expand(abbr, cfg) if call is None else route_call(call, abbr)
     except Timeout:
         r = ('timeout',)
     except TooDeep:
         r = ('too-deep',)
+    except MemoryError:
+        r = ('memory',)
     finally:
         signal.setitimer(signal.ITIMER_PROF, 0)
         signal.signal(signal.SIGPROF, old)
         ms.parse = orig
+    if r[0] == 'internal' and r[1:] == ('MemoryError',):
+        r = ('memory',)
+    if r[0] in ('hang', 'timeout', 'memory'):
+        _HANGS['n'] += 1          # reported by the caller (check_case) with this input as replay
+        import gc
+        gc.collect()
+    elif r[0] in ('recursion', 'too-deep'):
+        _HANGS['rec'] += 1
     return r, maxd[0]
 
 
@@ -142,10 +257,17 @@ def route_runner(route, cfg):
 def route_call(call, abbr):
     from common import Hang
     from markup_util import _limited_call, classify_exc, CALL_LIMIT_S
+    if not budget_left():
+        return ('skipped',)
     try:
-        return ('ok', _limited_call(lambda: call(abbr)))
+        with address_space_limit():
+            return ('ok', _limited_call(lambda: call(abbr)))
     except Hang:
+        _HANGS['n'] += 1
         return ('hang', CALL_LIMIT_S)
+    except MemoryError:
+        _HANGS['n'] += 1
+        return ('memory',)
     except Exception as e:  # noqa
         return classify_exc(e)
 
@@ -464,6 +586,11 @@ _RESOLVED_CFG = {}
 
 
 def impl_resolved(abbr, cfg):
+    """_impl_resolved under the per-call limits (a resolve_snippets that does not return is ('hang', s))."""
+    return guarded(lambda: _impl_resolved(abbr, cfg), abbr, cfg, 'resolve_snippets')
+
+
+def _impl_resolved(abbr, cfg):
     """The abbreviation parsed the way markup.parse does and run through resolve_snippets ONLY (before the
     transform pass): ('ok', nested forest) with nodes [name, value, repeat, attrs, self_closing, children]."""
     from emmet.config import Config
@@ -539,7 +666,7 @@ def on_tops(forest, f):
 FRESH = 'zzq'          # a name that is no snippet key: carries the decoration alone
 
 
-def resolved_forms(k, cfg, reverse):
+def resolved_forms(k, cfg, reverse, combos=()):
     """[(form, abbreviation, expected resolved forest)] for the decorated alias k, computed from the resolved
     forest of the bare alias and of the decoration written on a name that is no alias.  These are
     C14_alias_attributes / _children / _repeat / _text / _self_closing (alias_merge: for ALL tables, cyclic or not)."""
@@ -563,22 +690,55 @@ def resolved_forms(k, cfg, reverse):
     for i in range(3):
         rep += on_tops(base, lambda n, i=i: n.__setitem__(2, (3, i, False)))
     forms.append(('repeat', FRESH + '>' + k + '*3', [[FRESH, None, None, None, False, rep]]))
+    # several kinds at once (COMBINED_ALIAS_DATA): the theorems composed -- children first (below find_deepest of the
+    # definition), then attributes / text / mark / repeater on every top-level node
+    for combo in combos:
+        if not base:
+            break
+        abbr = k + ('.extra[t=v]' if 'attributes' in combo else '') + ('{T}' if 'text' in combo else '') + ('/' if 'self-closing' in combo else '')
+
+        def deco(n, i=None, combo=combo):
+            if 'attributes' in combo:
+                add(n)
+            if 'text' in combo:
+                n[1] = [('s', 'T')]
+            if 'self-closing' in combo:
+                n[4] = True
+            if i is not None:
+                n[2] = (3, i, False)
+        body = attach_deepest_py(base, kid[1]) if 'children' in combo else base
+        if 'repeater' in combo:
+            abbr = FRESH + '>' + abbr + '*3' + ('>' + FRESH if 'children' in combo else '')
+            rep = []
+            for i in range(3):
+                rep += on_tops(body, lambda n, i=i: deco(n, i))
+            want = [[FRESH, None, None, None, False, rep]]
+        else:
+            abbr += '>' + FRESH if 'children' in combo else ''
+            want = on_tops(body, deco)
+        forms.append((combo_name(combo), abbr, want))
     return ('ok', base), forms
 
 
-def resolved_case(k, d, cfg, reverse, self_free):
+def resolved_case(k, d, cfg, reverse, self_free, combos=()):
     """Oracle on the resolver of the implementation.  Returns (failures, [(abbr, impl result)] for the model tie)."""
     fails, seen = [], []
-    base, forms = resolved_forms(k, cfg, reverse)
+    base, forms = resolved_forms(k, cfg, reverse, combos)
     seen.append((k, base))
+    if base[0] in ('hang', 'memory'):
+        fails.append(('alone', k, 'resolve_snippets(%r) does not terminate: %r' % (k, base)))
     for form, abbr, want in forms:
         got = impl_resolved(abbr, cfg)
+        if got[0] == 'skipped':
+            continue
         seen.append((abbr, got))
         if got != ('ok', want):
             fails.append((form, abbr, 'resolve_snippets(%r) is not the resolved definition of %r with the %s of the alias applied: got %r, '
                           'expected %r' % (abbr, k, form, str(flatten(got[1]) if got[0] == 'ok' else got)[:260], str(flatten(want))[:260])))
     if self_free and base[0] == 'ok':
         rd = impl_resolved(d, cfg)
+        if rd[0] == 'skipped':
+            return fails, seen
         seen.append((d, rd))
         if rd != base:
             fails.append(('alone', k, 'resolve_snippets(%r) differs from resolve_snippets of its definition %r (which does not reach itself): '
@@ -637,13 +797,17 @@ def resolved_tie(ctx, tables):
             ctx.cover('C14:tok-ext:%s' % ('holds' if te else 'not-tokenized' if te is None else 'fails'))
             if te is False:
                 ctx.sample({'tok_ext_fails_for_definition': d})
-            fails, seen = resolved_case(k, d, cfg, reverse, sf and plain_reading(cfg))
+            combos = tuple(next_combos(1)) if COMBINED_ALIAS_DATA else ()
+            for combo in combos:
+                ctx.cover('C14:resolved:combined:' + combo_name(combo))
+            fails, seen = resolved_case(k, d, cfg, reverse, sf and plain_reading(cfg), combos)
             ctx.count_eval(len(seen))
             ctx.cover('C14:resolved:%s' % ('self-free' if sf else 'reaches-itself'))
             for form, abbr, why in fails:
                 ctx.property_failure('C14:resolved:%s|%s' % (abbr, canon_cfg(cfg)), 'C14 ' + why,
                                      {'component': 'C14-resolved', 'key': k, 'definition': d, 'config': cfg, 'reverse': reverse,
-                                      'self_free': sf and plain_reading(cfg), 'form': form, 'why': why})
+                                      'self_free': sf and plain_reading(cfg), 'form': form, 'why': why,
+                                      'combos': [list(x) for x in combos]})
             if ec is not None:
                 for abbr, r in seen:
                     wires.append([7] + ec + enc_str(abbr))
@@ -659,7 +823,7 @@ def resolved_tie(ctx, tables):
         for (abbr, cfg, r), w in zip(impl, outs):
             mo = au.decode_tree(w)
             im = ('ok', flatten(r[1])) if r[0] == 'ok' else r
-            if im[0] == 'recursion':
+            if im[0] in NO_RESULT:
                 continue
             if mo != im:
                 dis += 1
@@ -690,7 +854,7 @@ _rot = [0]
 def top_attr_names(key, cfg):
     """Names the bare alias gives its top-level elements (generator side only: WHERE a collision can be written).
     None when the alias does not expand to named top-level elements."""
-    t = au.impl_tree(key, cfg)
+    t = tree_of(key, cfg)
     if t[0] != 'ok':
         return None
     tops = [n for n in t[1] if n[0] == 0]
@@ -782,8 +946,8 @@ def override_oracle(key, deco, cfg):
     """Final tree (markup.parse) of KEY<deco> = final tree of KEY with the attributes of <deco> (read off the plain element
     zzq<deco>, which is no alias) applied to every top-level node.  Returns why it fails, or None."""
     reverse = bool((cfg.get('options') or {}).get('output.reverseAttributes'))
-    base = au.impl_tree(key, cfg)
-    plain = au.impl_tree(FRESH + deco, cfg)
+    base = tree_of(key, cfg)
+    plain = tree_of(FRESH + deco, cfg)
     if base[0] != 'ok' or plain[0] != 'ok' or len(plain[1]) != 1 or plain[1][0][1] != FRESH:
         return None
     dattrs = [a for a in (plain[1][0][4] or [])]
@@ -791,7 +955,9 @@ def override_oracle(key, deco, cfg):
         return None
     if any(n[0] == 0 and (n[1] is None or any((n[1], a[0]) in ADDON_DROPS for a in dattrs)) for n in base[1]):
         return None
-    got = au.impl_tree(key + deco, cfg)
+    got = tree_of(key + deco, cfg)
+    if got[0] == 'skipped':
+        return None
     if got[0] != 'ok':
         return 'markup.parse(%r) gives %r although %r and %r parse' % (key + deco, got, key, FRESH + deco)
     if len(got[1]) != len(base[1]):
@@ -824,6 +990,133 @@ def mentions_lorem_text(s):
     return 'lorem' in s.lower()
 
 
+# ---------------------------------------------------------------- SEVERAL kinds of alias data at once
+# The statement lists five kinds of data written on the alias -- attributes, text, a repeater, the self-closing mark,
+# children -- and says where each goes.  It says so for an alias that carries any of them, so also for an alias that carries
+# SEVERAL AT ONCE (`bq.extra{T x}/`, `ul>KEY[t=v]{T x}*2>b`): every subset of two or more kinds is a generator class of its
+# own (26 subsets), judged three ways:
+#  * expand(alias form) = expand(definition with the same data written in its place): attributes / text / mark on every
+#    top-level element by the textual reader (snippet_util.decorate_tops_combined: text written on the alias stands in place
+#    of the element's own), the repeater on the definition in parentheses, the child below the textually last element;
+#  * directly on the final tree (markup.parse) for the kinds that sit ON the top-level elements: every top-level node of
+#    KEY<data> has the text / the mark / the attributes written on the alias, everything else as in the tree of the bare KEY
+#    (this judges an alias whose definition starts with its own name -- `a: a[href]` -- where the in-place form goes through
+#    the alias again);
+#  * on resolve_snippets (resolved_forms: the decorated-alias theorems composed).
+COMBINED_ALIAS_DATA = True          # generator class: two or more kinds of data on one alias
+DATA_KINDS = ('attributes', 'text', 'self-closing', 'repeater', 'children')
+COMBOS = [tuple(k for i, k in enumerate(DATA_KINDS) if m >> i & 1) for m in range(32) if bin(m).count('1') >= 2]
+ALIAS_TEXTS = ['T x', 'T', 'a.b', '${1:f} y']
+_combo_rot = [0]
+
+
+def combo_name(combo):
+    return '+'.join(combo)
+
+
+def next_combos(n, rng=None):
+    """n of the 26 subsets: drawn from rng (user tables) or by rotation (built-in tables: the same in every run)."""
+    out = []
+    for _ in range(n):
+        if rng is not None:
+            out.append(rng.choice(COMBOS))
+        else:
+            _combo_rot[0] += 1
+            out.append(COMBOS[(_combo_rot[0] * 7) % len(COMBOS)])
+    return out
+
+
+def combined_pair(key, d, rev, combo, text):
+    """(alias form, definition-in-place form or None, the data that sits on the top-level elements as written on the alias)"""
+    attrs = '.extra[t=v]' if 'attributes' in combo else ''
+    on_top = attrs + ('{%s}' % text if 'text' in combo else '') + ('/' if 'self-closing' in combo else '')
+    a = key + on_top
+    b = su.decorate_tops_combined(d, attrs, text if 'text' in combo else None, 'self-closing' in combo, after_name=rev)
+    if 'children' in combo:
+        if b is not None and not su.ends_with_element(d):
+            b = None
+        if b is not None:
+            b += '>b'
+    if 'repeater' in combo:
+        a = 'ul>' + a + '*2'
+        if b is not None:
+            b = 'ul>(' + b + ')*2'
+    if 'children' in combo:
+        a += '>b'
+    return a, b, on_top
+
+
+def combined_cases(key, d, cfg, rev, kind, combos, rng=None, **extra):
+    out = []
+    for combo in combos:
+        text = (rng or _FIXED).choice(ALIAS_TEXTS)
+        a, b, on_top = combined_pair(key, d, rev, combo, text)
+        c = dict(extra, kind='%s:combined:%s%s' % (kind, combo_name(combo), ':reversed' if rev else ''), a=a, b=b, config=cfg, key=key,
+                 combined=list(combo), on_top=on_top)
+        c['equal'] = bool(extra.get('equal', True)) and b is not None
+        out.append(c)
+    return out
+
+
+def _drop_addon(name, attrs):
+    return [a for a in attrs if (name, a[0]) not in ADDON_DROPS]
+
+
+_TREE_MEMO = {}
+
+
+def _memo_tree(abbr, cfg):
+    """tree_of for the two reference trees of combined_oracle (bare alias, plain element with the data): the same for all
+    cases of one configuration object."""
+    ent = _TREE_MEMO.get(id(cfg))
+    if ent is None or ent[0] is not cfg:
+        if len(_TREE_MEMO) > 32:
+            _TREE_MEMO.clear()
+        ent = _TREE_MEMO[id(cfg)] = (cfg, {})
+    if abbr not in ent[1]:
+        ent[1][abbr] = tree_of(abbr, cfg)
+    return ent[1][abbr]
+
+
+def combined_oracle(key, on_top, cfg):
+    """Final tree (markup.parse) of KEY<on_top> against the final tree of the bare KEY: on every top-level node the text and
+    the self-closing mark written on the alias, its attributes applied (read off the plain element zzq<on_top>); all other
+    nodes, and everything else of the top-level nodes, unchanged.  Why it fails, or None."""
+    reverse = bool((cfg.get('options') or {}).get('output.reverseAttributes'))
+    base = _memo_tree(key, cfg)
+    plain = _memo_tree(FRESH + on_top, cfg)
+    if base[0] != 'ok' or plain[0] != 'ok' or len(plain[1]) != 1 or plain[1][0][1] != FRESH:
+        return None
+    _, _, pval, _, pattrs, pclose = plain[1][0][:6]
+    dattrs = list(pattrs or [])
+    if any(not a[0] for a in dattrs) or len(set(a[0] for a in dattrs)) != len(dattrs):
+        return None
+    got = tree_of(key + on_top, cfg)
+    if got[0] == 'skipped':
+        return None
+    if got[0] != 'ok':
+        return 'markup.parse(%r) gives %r although %r and %r parse' % (key + on_top, got, key, FRESH + on_top)
+    if len(got[1]) != len(base[1]):
+        return 'the tree of %r has %d nodes, the tree of %r has %d' % (key + on_top, len(got[1]), key, len(base[1]))
+    for g, b in zip(got[1], base[1]):
+        top = b[0] == 0
+        want_val = pval if top and pval is not None else b[2]
+        want_close = bool(b[5] or (top and pclose))
+        want_attrs = apply_alias_attrs(b[4], dattrs, reverse) if top and dattrs and b[1] is not None else _norm_attrs(b[4])
+        have_attrs = _norm_attrs(g[4])
+        if top and pval is not None:
+            # text on an element: addon steps documented to drop an attribute then (ADDON_DROPS) are not part of this property
+            want_attrs, have_attrs = _drop_addon(b[1], want_attrs), _drop_addon(g[1], have_attrs)
+        if top and b[1] is None and dattrs:
+            continue          # attributes written on an alias whose definition starts with a text node: not stated
+        if (g[0], g[1], g[3]) != (b[0], b[1], b[3]) or _norm_val(g[2]) != _norm_val(want_val) or bool(g[5]) != want_close \
+                or have_attrs != want_attrs:
+            return ('node <%s> (depth %d) of %r: text %r self-closing %r attributes %r; expected text %r self-closing %r attributes %r = '
+                    'the node of the bare alias %r with the data written on the alias applied'
+                    % (g[1], g[0], key + on_top, _norm_val(g[2]), bool(g[5]), have_attrs, _norm_val(want_val), want_close, want_attrs, key))
+    return None
+
+
 
 # ---------------------------------------------------------------- cases
 def builtin_cases():
@@ -854,6 +1147,23 @@ def builtin_cases():
                 for kind, a, b, deco in override_pairs(k, d, cfg, rev):
                     cases.append({'kind': 'builtin:' + kind + (':reversed' if rev else ''), 'a': a, 'b': b, 'config': cfg,
                                   'equal': b is not None, 'bound': None, 'key': k, 'deco': deco})
+    if COMBINED_ALIAS_DATA:
+        # every key once (xsl / pug: the keys those tables add or change), two of the 26 subsets each (rotating), a
+        # quarter of the keys under reverseAttributes
+        own = (('html', dict(markup_snippets)), ('xsl', dict(xsl_snippets)), ('pug', dict(pug_snippets)))
+        i = 0
+        shared = {}
+        for syn, tbl in own:
+            for k, d in tbl.items():
+                if mentions_lorem_text(k + d):
+                    continue
+                i += 1
+                rev = i % 4 == 0
+                cfg = shared.setdefault((syn, rev), {'syntax': syn} if not rev else {'syntax': syn, 'options': {'output.reverseAttributes': True}})
+                new = combined_cases(k, d, cfg, rev, 'builtin', next_combos(2), None, equal=True, bound=None)
+                new[i % 2]['to_model'] = i % 2 == 0          # the oracle judges every case; one in four also goes through the extracted model
+                new[1 - i % 2]['to_model'] = False
+                cases += new
     if WRAP_TEXT_AND_ROUTES:
         # every key once (xsl / pug: the keys those tables add or change), two draws of (shape, wrapped text, call route)
         own = (('html', dict(markup_snippets)), ('xsl', dict(xsl_snippets)), ('pug', dict(pug_snippets)))
@@ -942,6 +1252,25 @@ def user_cases(ctx, n_tables, tables=None):
         cases.append({'kind': 'user-abbr', 'a': abbr, 'b': None, 'config': cfg, 'equal': False, 'bound': bound})
         ctx.cover('C14:table-size:%d' % len(table))
         ctx.cover('C14:table-cyclic' if any_cycle else 'C14:table-acyclic')
+    return cases
+
+
+def user_combined_cases(ctx, tables):
+    """Third pass over the generated tables (own random stream derived from the run's seed, so that the tables and the wrap draws
+    of a given VERIF_SEED stay what they were): every key once with a drawn subset of the kinds of alias data."""
+    cases = []
+    if not COMBINED_ALIAS_DATA:
+        return cases
+    rng = random.Random(ctx.seed * 7919 + 14)
+    n = 0
+    for cfg, table in tables:
+        rev = bool((cfg.get('options') or {}).get('output.reverseAttributes'))
+        bound = len(set(table.values()))
+        for k, d in table.items():
+            cyc = text_reaches_itself(table, k)
+            n += 1
+            cases += combined_cases(k, d, cfg, rev, 'user-cyclic' if cyc else 'user', next_combos(1, rng), rng, equal=not cyc, bound=bound,
+                                    to_model=n % 5 == 0)          # the oracle judges every case; one in five also goes through the extracted model
     return cases
 
 
@@ -1135,18 +1464,21 @@ def judge_session_call(session, c, call):
         return where + ': resolution does not terminate (RecursionError)', ra, depth
     if ra[0] == 'too-deep':
         return where + ': snippet nesting depth %d exceeds the number of distinct snippets of the configuration' % depth, ra, depth
-    if ra[0] == 'timeout':
-        return where + ': resolution did not finish within %d s (nesting depth reached %d)' % (TIME_LIMIT, depth), ra, depth
+    if ra[0] == 'skipped':
+        return None, ra, depth
+    if ra[0] in ('timeout', 'hang', 'memory'):
+        return where + ': resolution did not finish within %d s of CPU time / the memory bound (%s; nesting depth reached %d)' % (
+            TIME_LIMIT, ra[0], depth), ra, depth
     if ra[0] != 'ok':
         return where + ': expand(alias form) raised %r' % (ra,), ra, depth
     if c['snippet']:
         rb = route_call(lambda abbr: fresh_call(session, c, abbr), c['b'])
-        if rb != ra:
+        if rb != ra and rb[0] != 'skipped':
             return ('%s: with the caller\'s global_config object the alias form gives %r; its definition by the layers the caller wrote, in its '
                     'place (%r), gives %r' % (where, ra[1][:300], c['b'], str(rb[1] if rb[0] == 'ok' else rb)[:300])), ra, depth
     else:
         rb = route_call(lambda abbr: fresh_call(session, c, abbr, tables=False), c['a'])
-        if rb != ra:
+        if rb != ra and rb[0] != 'skipped':
             return ('%s: %r is no snippet of this syntax by the layers the caller wrote (a plain element: %r), but with the caller\'s '
                     'global_config object it expands to %r' % (where, c['name'], str(rb[1] if rb[0] == 'ok' else rb)[:300], ra[1][:300])), ra, depth
     return None, ra, depth
@@ -1313,16 +1645,23 @@ def check_case(c):
     if route in DEFINITION_FIRST and c.get('equal') and c.get('b') is not None:
         # under the same observer: this form uses the snippet table as well (termination and the nesting bound hold for it too)
         rb, depth_b = expand_with_depth(c['b'], c['config'], call)
-        if rb[0] in ('recursion', 'too-deep', 'timeout'):
+        if rb[0] == 'skipped':
+            return None, rb, depth_b
+        if rb[0] in ('recursion', 'too-deep', 'timeout', 'hang', 'memory'):
             return ('along the call route %r, definition-in-place form %r: resolution does not terminate within the bound (%s, nesting depth '
                     'reached %d)' % (route, c['b'], rb[0], depth_b)), rb, depth_b
     ra, depth = expand_with_depth(c['a'], c['config'], call)
+    if ra[0] == 'skipped':
+        return None, ra, depth
     if ra[0] == 'recursion':
         return 'resolution does not terminate (RecursionError)', ra, depth
     if ra[0] == 'too-deep':
         return 'snippet nesting depth %d exceeds the number of distinct snippets of the configuration' % depth, ra, depth
-    if ra[0] == 'timeout':
-        return 'resolution did not finish within %d s (nesting depth reached %d)' % (TIME_LIMIT, depth), ra, depth
+    if ra[0] in ('timeout', 'hang'):
+        return 'resolution did not finish within %d s of CPU time (nesting depth reached %d)' % (TIME_LIMIT, depth), ra, depth
+    if ra[0] == 'memory':
+        return 'resolution did not finish: the call asked for more than %d MB of memory (nesting depth reached %d)' % (
+            ADDRESS_SPACE_HEADROOM >> 20, depth), ra, depth
     if ra[0] != 'ok':
         return 'expand(alias form) raised %r' % (ra,), ra, depth
     if c.get('bound') is not None and depth > c['bound']:
@@ -1330,12 +1669,12 @@ def check_case(c):
     if c.get('equal') and c.get('b') is not None:
         if rb is None:
             rb = impl_expand(c['b'], c['config']) if call is None else route_call(call, c['b'])
-        if rb != ra:
+        if rb != ra and rb[0] != 'skipped':
             return '%salias form gives %r, definition in its place (%r) gives %r' % (
                 '' if call is None else 'along the call route %r: ' % route, ra[1][:300], c['b'], str(rb[1] if rb[0] == 'ok' else rb)[:300]), ra, depth
     if c['kind'].endswith('repeat-in-parent'):
         # the repeater written on the alias is carried by every top-level node of the definition
-        t = au.impl_tree(c['a'], c['config'])
+        t = tree_of(c['a'], c['config'])
         if t[0] == 'ok':
             tops = [n for n in t[1] if n[0] == 1]
             bad = [n[1] for n in tops if n[3] is None or n[3][0] != 2]
@@ -1345,7 +1684,7 @@ def check_case(c):
         # in `ul>KEY*3` copy i of the alias is replaced by the definition's top-level nodes, each with repeat (3, i)
         if c['a'].endswith('*2'):
             a3 = c['a'][:-1] + '3'
-            t = au.impl_tree(a3, c['config'])
+            t = tree_of(a3, c['config'])
             if t[0] == 'ok':
                 reps = [n[3] for n in t[1] if n[0] == 1]
                 m = len(reps) // 3
@@ -1353,11 +1692,26 @@ def check_case(c):
                 if len(reps) % 3 or [tuple(r) if r else r for r in reps] != want:
                     return ('the nodes that replace the three copies of the alias in %r carry the repeaters %r, not (3,0) (3,1) (3,2) on '
                             'each copy\'s top-level nodes' % (a3, reps[:9])), ra, depth
+    if c.get('on_top') and c.get('key') is not None and not mentions_lorem_text(c['key'] + c['a']):
+        why = combined_oracle(c['key'], c['on_top'], c['config'])
+        if why:
+            return why + '; expand(%r) gives %r' % (c['a'], ra[1][:200]), ra, depth
     if c.get('deco') is not None and c.get('key') is not None:
         why = override_oracle(c['key'], c['deco'], c['config'])
         if why:
             return why + '; expand gives %r' % (ra[1][:200],), ra, depth
     return None, ra, depth
+
+
+def report_pending_hangs(ctx):
+    """Implementation calls made outside check_case (by a generator, by a tree oracle, by the resolver oracle) that hit the
+    per-call limit: 'resolution terminates' fails on that input."""
+    while _HANGS['pending']:
+        abbr, cfg, where = _HANGS['pending'].pop(0)
+        why = '%s did not finish (RecursionError, or no result within %d s of CPU time / the memory bound): resolution does not terminate' % (where, TREE_LIMIT_S)
+        ctx.property_failure('C14:%s|%s' % (abbr, canon_cfg(cfg)), 'C14 expand(%r, %s): %s' % (abbr, canon_cfg(cfg), why),
+                             {'component': 'C14', 'kind': 'termination:' + where, 'a': abbr, 'b': None, 'config': cfg, 'equal': False,
+                              'bound': None, 'termination_of': where, 'why': why})
 
 
 def run(ctx):
@@ -1424,6 +1778,26 @@ def run(ctx):
                        '(failing call alone / one earlier call + it / the whole prefix) and the caller\'s data shrunk greedily; the replay file repeats the '
                        'sequence in a fresh process.  The extracted model takes one user config: one session call in three is also compared with the model under the '
                        'equivalent single user config (layers merged by the harness); '
+                       'SEVERAL KINDS OF ALIAS DATA AT ONCE: the statement names five kinds of data written on the alias (attributes, text, repeater, '
+                       'self-closing mark, children); every subset of two or more kinds (26) is a class: every built-in key (html; the keys xsl / pug add) '
+                       'with two subsets (rotating; a quarter of the keys under reverseAttributes), every key of every user table with one drawn subset, alias '
+                       'text drawn from `T x`, `T`, `a.b`, `${1:f} y`: KEY.extra[t=v]{text}/ , ul>KEY...*2 , ...>b.  Oracle: (1) expand(alias form) = '
+                       'expand(definition with the same data written in its place: attributes / text in place of the element\'s own / mark on every top-level '
+                       'element by the textual reader snippet_util.decorate_tops_combined, the repeater on the definition in parentheses, the child below '
+                       'the textually last element), for keys whose definition does not reach itself; (2) on the final tree of markup.parse for the data that '
+                       'sits on the top-level elements: every top-level node of KEY<data> carries the text, the mark and the attributes written on the alias '
+                       '(read off the plain element zzq<data>), everything else as in the tree of the bare KEY -- this also judges aliases whose definition '
+                       'starts with their own name (a: a[href]), where the in-place form goes through the alias again; attributes that addon steps drop '
+                       'once an element has text (xsl:variable / xsl:with-param select, label for) are left out; (3) the decorated-alias theorems COMPOSED, on '
+                       'resolve_snippets, one rotating subset per key in the resolver oracle, the same trees through the extracted model.  One in four (built-in) / '
+                       'one in five (user tables) of these cases also goes through the extracted model of expand(); '
+                       'TERMINATION IS AN OUTCOME: every call into the implementation -- expand along every route, markup.parse for final trees (also the '
+                       'calls the GENERATORS make to see where a collision can be written), resolve_snippets in the resolver oracle -- runs under a CPU-time '
+                       'limit of 10 s that fires a BaseException (cannot be swallowed by `except Exception`) and under an address-space bound (RLIMIT_AS = size '
+                       'at the first call + 1.5 GB, so a resolution whose node list doubles per round ends in MemoryError, not in the OOM killer); a call that '
+                       'hits either limit is a violation of `resolution terminates` reported with its abbreviation and configuration as replay; after 3 such '
+                       'calls (or 40 calls that end in RecursionError / beyond the nesting bound) no further implementation calls are made (outcome skipped, '
+                       'no judgement) so that the run ends in time; '
                        'parse_snippets multi-key expansion; every alias form also through the extracted model. '
                        'non-trivial = decorated alias or user table; distinct by abbreviation + config.')
     multikey_check(ctx)
@@ -1434,19 +1808,17 @@ def run(ctx):
     cases += user_cases(ctx, 400 if ctx.tier == 'quick' else 4000, tables)
     cases += variable_round_cases()
     cases += user_wrap_cases(ctx, tables)
+    cases += user_combined_cases(ctx, tables)
     cases += session_cases(ctx, 90 if ctx.tier == 'quick' else 900)
     lap('generate')
     wires, idx, impl = [], [], []
     maxdepth = 0
-    timeouts = 0
     for k, c in enumerate(cases):
-        if timeouts >= 3:
+        if not budget_left():
             ctx.cover('C14:skipped-after-timeouts')
             impl.append(('skipped',))
             continue
         why, ra, depth = check_case(c)
-        if ra[0] == 'timeout':
-            timeouts += 1
         maxdepth = max(maxdepth, depth)
         impl.append(ra)
         ctx.count_eval()
@@ -1477,12 +1849,13 @@ def run(ctx):
             except NotModelled:
                 ctx.cover('C14:not-modelled')
     lap('impl+oracle')
+    report_pending_hangs(ctx)
     dis = 0
     if wires:
         outs = model.run(wires)
         for k, w in zip(idx, outs):
             mo = decode_expand(w)
-            if mo != impl[k] and impl[k][0] not in ('recursion', 'timeout', 'too-deep', 'skipped'):
+            if mo != impl[k] and impl[k][0] not in NO_RESULT:
                 dis += 1
                 c = cases[k]
                 if dis <= 5:
@@ -1505,6 +1878,7 @@ def run(ctx):
         resolved_tie(ctx, tables[:250 if ctx.tier == 'quick' else 2000] +
                      [builtin_tables[0], builtin_tables[3], ({'syntax': 'xsl'}, dict(xsl_snippets)), ({'syntax': 'pug'}, dict(pug_snippets))])
         lap('resolved tie')
+    report_pending_hangs(ctx)
     ctx.cov['corpus_cases'] = n_corpus
     ctx.cov['max_resolve_depth_seen'] = maxdepth
     for c, r in [(c, r) for c, r in zip(cases, impl) if 'session' not in c][-40:-36]:
@@ -1530,7 +1904,8 @@ def replay(ctx, obj):
             print('parse_snippets multi-key check: %s' % ('fails' if c.failed else 'holds'))
             return 1 if c.failed else 0
         if rp.get('component') == 'C14-resolved':
-            fails, _ = resolved_case(rp['key'], rp['definition'], rp['config'], rp['reverse'], rp['self_free'])
+            fails, _ = resolved_case(rp['key'], rp['definition'], rp['config'], rp['reverse'], rp['self_free'],
+                                     [tuple(x) for x in rp.get('combos') or ()])
             for form, abbr, why in fails:
                 print('property oracle (resolver): %s' % why)
             if not fails:
@@ -1541,6 +1916,10 @@ def replay(ctx, obj):
     for pa, pcfg in rp.get('prelude') or []:
         print('earlier call of the sequence: expand(%r, %r) -> %r' % (pa, pcfg, impl_expand(pa, pcfg)))
     why, ra, depth = check_case(rp)
+    if not why and rp.get('termination_of'):
+        r = tree_of(rp['a'], rp['config']) if rp['termination_of'] == 'markup.parse' else impl_resolved(rp['a'], rp['config'])
+        if r[0] in ('hang', 'memory', 'recursion'):
+            why = '%s(%r) does not terminate: %r' % (rp['termination_of'], rp['a'], r)
     print('expand(%r, %r)%s -> %r (depth %d)\nproperty oracle: %s' % (
         rp['a'], rp['config'], ' along the call route %r' % rp['route'] if rp.get('route') else '', ra, depth, why or 'holds'))
     return 1 if why else 0
